@@ -748,3 +748,130 @@ def label_loop_table(func_node, param, resolve):
     else:
         default = ("return", last.value.value if isinstance(last.value, ast.Constant) else None)
     return out, default
+
+
+def normalise_scale_function(func_node, resolve_const, resolve_seq):
+    """A copy of the function in which (a) names of module-level str / int constants are replaced by the constants and (b)
+    every `for <targets> in <constant sequence of tuples>:` loop is unrolled, the targets replaced by each row's constants.
+    The readers above then see plain comparisons against literals.  Nothing is executed: the table is the evaluated literal."""
+    from .loader import _set_parents, clone
+
+    def const_node(v, like):
+        n = ast.Constant(value=v)
+        for a in ("lineno", "col_offset", "end_lineno", "end_col_offset"):
+            if hasattr(like, a):
+                setattr(n, a, getattr(like, a))
+        return n
+
+    class Subst(ast.NodeTransformer):
+        def __init__(self, env):
+            self.env = env
+
+        def visit_Name(self, node):
+            if isinstance(node.ctx, ast.Load):
+                if node.id in self.env:
+                    return const_node(self.env[node.id], node)
+                v = resolve_const(node.id)
+                if isinstance(v, (str, int)) and not isinstance(v, bool):
+                    return const_node(v, node)
+            return node
+
+    def unroll(stmts, env):
+        out = []
+        for st in stmts:
+            if isinstance(st, ast.For) and not st.orelse:
+                rows = None
+                if isinstance(st.iter, ast.Name):
+                    rows = resolve_seq(st.iter.id)
+                if isinstance(rows, dict):
+                    rows = list(rows.items())
+                tg = st.target
+                names = [e.id if isinstance(e, ast.Name) else None for e in tg.elts] if isinstance(tg, ast.Tuple) else (
+                    [tg.id] if isinstance(tg, ast.Name) else None)
+                if isinstance(rows, (list, tuple)) and names and all(
+                        (isinstance(r, (list, tuple)) and len(r) == len(names)) if isinstance(tg, ast.Tuple) else True for r in rows) \
+                        and all(all(isinstance(c, (str, int, type(None))) for c in (r if isinstance(tg, ast.Tuple) else [r])) for r in rows):
+                    for r in rows:
+                        vals = list(r) if isinstance(tg, ast.Tuple) else [r]
+                        env2 = dict(env)
+                        for nm, v in zip(names, vals):
+                            if nm:
+                                env2[nm] = v
+                        out += unroll(clone(st.body), env2)
+                    continue
+            new = Subst(env).visit(clone(st)) if not isinstance(st, (ast.If, ast.For, ast.While, ast.Try, ast.With)) else None
+            if new is None:
+                st2 = clone(st)
+                if isinstance(st2, ast.If):
+                    st2.test = Subst(env).visit(st2.test)
+                    st2.body = unroll(st2.body, env)
+                    st2.orelse = unroll(st2.orelse, env)
+                elif isinstance(st2, (ast.For, ast.While)):
+                    st2.body = unroll(st2.body, env)
+                    st2.orelse = unroll(st2.orelse, env)
+                    if isinstance(st2, ast.For):
+                        st2.iter = Subst(env).visit(st2.iter)
+                    else:
+                        st2.test = Subst(env).visit(st2.test)
+                elif isinstance(st2, ast.Try):
+                    st2.body = unroll(st2.body, env)
+                    for h in st2.handlers:
+                        h.body = unroll(h.body, env)
+                    st2.orelse = unroll(st2.orelse, env)
+                    st2.finalbody = unroll(st2.finalbody, env)
+                elif isinstance(st2, ast.With):
+                    st2.body = unroll(st2.body, env)
+                new = st2
+            out.append(new)
+        return out
+
+    f2 = clone(func_node)
+    f2.body = unroll(f2.body, {})
+    # `x == None-valued constant and ...`: conjunctions with literal truth values are simplified so that the readers see the
+    # plain comparison (`scale_value == '5 - Improbable' and 10 is not None` -> the comparison)
+    class Simplify(ast.NodeTransformer):
+        def visit_BoolOp(self, node):
+            self.generic_visit(node)
+            if isinstance(node.op, ast.And):
+                keep = []
+                for v in node.values:
+                    tv = _literal_truth(v)
+                    if tv is True:
+                        continue
+                    if tv is False:
+                        return ast.Constant(value=False)
+                    keep.append(v)
+                if not keep:
+                    return ast.Constant(value=True)
+                if len(keep) == 1:
+                    return keep[0]
+                node.values = keep
+            return node
+    f2 = Simplify().visit(f2)
+    # `if False: ...` bodies disappear
+    def prune(stmts):
+        out = []
+        for st in stmts:
+            if isinstance(st, ast.If) and isinstance(st.test, ast.Constant) and st.test.value is False:
+                out += prune(st.orelse)
+                continue
+            if isinstance(st, ast.If):
+                st.body = prune(st.body)
+                st.orelse = prune(st.orelse)
+            out.append(st)
+        return out
+    f2.body = prune(f2.body)
+    ast.fix_missing_locations(f2)
+    _set_parents(f2)
+    return f2
+
+
+def _literal_truth(e):
+    """truth value of a comparison between literals (`10 is not None`, `None is not None`), else None"""
+    if isinstance(e, ast.Compare) and len(e.ops) == 1 and isinstance(e.left, ast.Constant) and isinstance(e.comparators[0], ast.Constant):
+        a, b, op = e.left.value, e.comparators[0].value, e.ops[0]
+        if isinstance(op, ast.Is):
+            return a is b if (a is None or b is None) else None
+        if isinstance(op, ast.IsNot):
+            return a is not b if (a is None or b is None) else None
+    return None
